@@ -183,8 +183,12 @@ class SimTransport(_SimCore, Transport):
                 self.trace.append(("R", b""))
                 return b""
             while not self.buf:   # "block"
-                if self._wake.wait(0.01) or not self.opened:
+                # poll without ever holding the Event's lock: close() may run inside a SIGALRM handler that interrupts this very
+                # thread (signal timeout mechanism); Event.wait() holds the condition's lock for a moment, Event.set() in the handler
+                # would then wait for it for ever (rig deadlock seen by the C12 strengthening; never a scrapli defect)
+                if self._wake.is_set() or not self.opened:
                     raise ScrapliConnectionError("transport closed while blocked in read")
+                time.sleep(0.005)
         return self._take()
 
     def write(self, channel_input: bytes) -> None:
